@@ -14,12 +14,14 @@ struct EncCall
     uint32_t minB{0};
     uint32_t maxB{1500};
     std::vector<PacketRecipe> packets;
+    int32_t abortAfter{-1};  // >= 0: the caller's iterator throws when packet (abortAfter % size) is read - the call ends with an exception
     void io(Ar& a)
     {
         a.num("version", version);
         a.num("minB", minB);
         a.num("maxB", maxB);
         a.vec("packets", packets);
+        a.optionalNum("abortAfter", abortAfter);
     }
 };
 
@@ -34,6 +36,7 @@ struct EncCase
     std::vector<EncCall> prior;  // earlier encode calls on the same encoder object (C01 / C07 / C08: "every batch" is not only the first one)
     uint8_t overload{0};  // which encode entry point: 0 vector<Packet> iterators, 1 vector<shared_ptr<Packet>> iterators,
                           // 2 forward_list<Packet> iterators (plain forward iterators), 3 single-packet overload (batches of one)
+    int32_t abortAfter{-1};  // history calls only (C10): >= 0: the caller's iterator throws at packet (abortAfter % size)
 
     void io(Ar& a)
     {
@@ -45,6 +48,7 @@ struct EncCase
         a.vec("packets", packets);
         a.optionalVec("prior", prior);
         a.optionalNum("overload", overload);
+        a.optionalNum("abortAfter", abortAfter);
     }
 };
 
@@ -215,6 +219,81 @@ inline std::vector<std::vector<uint8_t>> encodeVia(lib::Encoder& enc, std::vecto
     }
 }
 
+// An encode call that the caller's own iterator ends with an exception part-way through the batch (a legitimate history: the
+// library cannot know what a user iterator does). What such a call leaves behind must not show in later calls.
+struct AbortEncode
+{
+};
+class ThrowingIt
+{
+public:
+    using iterator_category = std::forward_iterator_tag;
+    using value_type = lib::Packet;
+    using difference_type = std::ptrdiff_t;
+    using pointer = const lib::Packet*;
+    using reference = const lib::Packet&;
+    ThrowingIt() = default;
+    ThrowingIt(const std::vector<lib::Packet>* v, size_t i, size_t throwAt)
+        : v(v)
+        , i(i)
+        , throwAt(throwAt)
+    {
+    }
+    reference operator*() const
+    {
+        if (i == throwAt)
+            throw AbortEncode{};
+        return (*v)[i];
+    }
+    pointer operator->() const
+    {
+        return &**this;
+    }
+    ThrowingIt& operator++()
+    {
+        ++i;
+        return *this;
+    }
+    ThrowingIt operator++(int)
+    {
+        ThrowingIt t = *this;
+        ++i;
+        return t;
+    }
+    bool operator==(const ThrowingIt& o) const
+    {
+        return i == o.i;
+    }
+    bool operator!=(const ThrowingIt& o) const
+    {
+        return i != o.i;
+    }
+
+private:
+    const std::vector<lib::Packet>* v{nullptr};
+    size_t i{0};
+    size_t throwAt{0};
+};
+// returns true if the call ended with the iterator's exception
+inline bool encodeAborted(lib::Encoder& enc, std::vector<lib::Packet>& batch, const lib::DataContext& ctx, int32_t abortAfter)
+{
+    if (batch.empty())
+    {
+        enc.encode(batch.begin(), batch.end(), ctx);
+        return false;
+    }
+    const size_t at = static_cast<size_t>(abortAfter) % batch.size();
+    try
+    {
+        enc.encode(ThrowingIt(&batch, 0, at), ThrowingIt(&batch, batch.size(), at), ctx);
+    }
+    catch (const AbortEncode&)
+    {
+        return true;
+    }
+    return false;
+}
+
 // runs the case's earlier encode calls on the encoder (ids already configured); their output is not inspected here
 inline void runPriorCalls(lib::Encoder& enc, const EncCase& c)
 {
@@ -223,7 +302,10 @@ inline void runPriorCalls(lib::Encoder& enc, const EncCase& c)
         std::vector<lib::Packet> batch;
         for (const auto& r : call.packets)
             batch.push_back(buildPacket(r, call.version));
-        encodeVia(enc, batch, lib::DataContext{call.minB, call.maxB}, static_cast<uint8_t>(c.overload + 1 + batch.size()));
+        if (call.abortAfter >= 0)
+            encodeAborted(enc, batch, lib::DataContext{call.minB, call.maxB}, call.abortAfter);
+        else
+            encodeVia(enc, batch, lib::DataContext{call.minB, call.maxB}, static_cast<uint8_t>(c.overload + 1 + batch.size()));
     }
 }
 
@@ -269,6 +351,9 @@ inline rc::Gen<EncCase> withPriorCalls(rc::Gen<EncCase> base, const EncGenParams
                 if (call.packets.back().kind == rkGeneric && call.packets.back().len == 0)
                     call.packets.back().len = 1;
             }
+            // one in eight earlier calls is ended by the caller's iterator throwing part-way
+            if (!call.packets.empty() && *range<int>(0, 7) == 0)
+                call.abortAfter = *range<int32_t>(0, static_cast<int32_t>(call.packets.size()) - 1);
             c.prior.push_back(call);
         }
         return c;
